@@ -495,6 +495,26 @@ func (f *Footer) anyMmapRef() *mmapRef {
 	return f.childMmapRef()
 }
 
+// sameChildCollections returns true when the footer records exactly
+// the child collections (by name and incarnation, recursively) that
+// the given segmentStack has.
+func (f *Footer) sameChildCollections(ss *segmentStack) bool {
+	if f == nil {
+		return len(ss.childSegStacks) == 0
+	}
+	if len(f.ChildFooters) != len(ss.childSegStacks) {
+		return false
+	}
+	for cName, childStack := range ss.childSegStacks {
+		childFooter, exists := f.ChildFooters[cName]
+		if !exists || childFooter.incarNum != childStack.incarNum ||
+			!childFooter.sameChildCollections(childStack) {
+			return false
+		}
+	}
+	return true
+}
+
 // Length returns the length of this footer
 func (f *Footer) Length() uint64 {
 	jBuf, err := json.Marshal(f)
